@@ -90,7 +90,7 @@ def collect(ctx):
     return pins
 
 
-def inline_round(ctx):
+def inline_round(ctx, requests=()):
     """One round of the fallback: helpers called directly from a role-bearing function (or from a closure rooted in one) that no
     resolver pins are inlined there.  Returns (facts', [paths]) — facts' is ctx.facts when nothing qualifies."""
     from . import inline
@@ -112,6 +112,24 @@ def inline_round(ctx):
     # a function that itself contains what a failed resolver was looking for may be inlined even if it is `pub` or a method of a
     # public type (a new accessor on the reader that wraps two reads, say): those pins are only a default
     direct = {k for k, b in f.mir.items() if k not in hard and hints and any(_safe(p, b) for p in hints)}
+    # ... and so may a private helper whose only call site lies in a function the failed rules name (an extracted stage of it)
+    from .vals import norm_path as _np
+    req = {_np(r) for r in requests if r and r not in ("?", "*")}
+    in_request = set()
+    if req:
+        sites, _refs = inline.static_call_sites(f)
+        for k, ss in sites.items():
+            if k in hard or len(ss) != 1:
+                continue
+            caller = f.mir.get(ss[0][0])
+            if caller is None:
+                continue
+            root = caller.j.get("root") or caller.path
+            if _np(root) in req or _np(caller.path) in req:
+                fi_ = f.fns.get(f.mir[k].path) or {}
+                if not fi_.get("pub"):
+                    in_request.add(k)
+    direct |= in_request
     cands = inline.candidates(f, (set(pins) - direct) | hard, allow_pub=direct)
     cands = {k: site for k, site in cands.items() if site[0] in bearing}
     if not cands:
@@ -132,7 +150,7 @@ def inline_round(ctx):
                     if matches(cl, depth + 1):
                         return True
             return False
-        chosen = {k: site for k, site in cands.items() if matches(f.mir[k])}
+        chosen = {k: site for k, site in cands.items() if matches(f.mir[k]) or k in in_request}
         # hints that no helper satisfies: what was lost is not hidden in an extracted helper, inlining would only blur the roles
         cands = chosen
         if not cands:
